@@ -36,6 +36,9 @@ from vlib import Check, run_tlc, tlc_must_pass, run_cases
 PROP = "C16"
 
 MUTANTS = ("gtMask", "lenLe", "searchOk")
+# programs rendered per (family-generator error kind, other family)
+RENDER_PER_GROUP = {"quick": (1, 40), "thorough": (5, 250)}
+COLOURS = (False, True)
 
 
 # ---------------------------------------------------------------------------
@@ -372,10 +375,7 @@ def render_part(chk, tier, seed, failing, crop, stdlib, scratch):
     chosen = []
     for g in sorted(groups):
         lst = groups[g]
-        if g.startswith("fam/"):
-            k = 1 if tier == "quick" else 5
-        else:
-            k = 40 if tier == "quick" else 250
+        k = RENDER_PER_GROUP[tier][0 if g.startswith("fam/") else 1]
         chosen += r.sample(lst, min(len(lst), k))
     plan = []      # (prog, res, known, t)
     for f in chains:
@@ -414,7 +414,7 @@ def render_part(chk, tier, seed, failing, crop, stdlib, scratch):
         if t is not None:
             args += ["--max-trace", str(t)]
         args.append(main)
-        for colour in (False, True):
+        for colour in COLOURS:
             jobs.append((d, args, colour, 60))
             metas.append((p, res, known, t, colour, main, args))
     with cf.ThreadPoolExecutor(max_workers=12) as ex:
@@ -652,6 +652,12 @@ def run(tier, seed):
         if apal is not None and apal[0] != "unavailable" and apal[0].poll() is None:
             apal[0].kill()
     chk.exhaustive = False
+    classes = {}
+    for sig, _, _ in chk.violations:
+        k = f"{sig.get('kind')}/{sig.get('class')}/{sig.get('msg', '')}"
+        classes[k] = classes.get(k, 0) + 1
+    # replay files are written for the first 25 disagreements: rare classes first
+    chk.violations.sort(key=lambda v: classes[f"{v[0].get('kind')}/{v[0].get('class')}/{v[0].get('msg', '')}"])
     classes = {}
     for sig, _, _ in chk.violations:
         k = f"{sig.get('kind')}/{sig.get('class')}/{sig.get('msg', '')}"
